@@ -516,28 +516,38 @@ Qed.
 Lemma bound_in_nil : forall Pv, bound_in Pv [].
 Proof. intros Pv x w L. discriminate. Qed.
 
-(* CONCAT of constants does not look at the row *)
-Lemma concat_const : forall args m m', barg_vars args = [] -> concat_args args m = Some (concat_strs args m').
+(* the engine's CONCAT is the algebra's *)
+Lemma econcat_eq : forall args m, econcat args m = concat_args args m.
+Proof. induction args as [|a r IH]; intros m; cbn [econcat concat_args]; [reflexivity|]. rewrite IH. reflexivity. Qed.
+
+(* BIND from the unit row is the algebra's extension of the unit row - whatever the arguments *)
+Lemma ebind_unit : forall args v, ebind args v [] = [extend args v []].
+Proof. intros. unfold ebind, extend. rewrite econcat_eq. cbn [lookup]. destruct (concat_args args []); reflexivity. Qed.
+
+(* joining with the one-row answer of the group { BIND(CONCAT(constants) AS ?v) } = BIND in place on every row: a row that binds
+   ?v already is kept exactly when the values agree (this is the repaired finding C01-bind-target-sibling) *)
+Lemma join_const_bind : forall args v G, barg_vars args = [] -> all_wf G ->
+  join G [extend args v []] = flat_map (ebind args v) G.
 Proof.
-  induction args as [|a r IH]; intros m m' H; cbn [concat_args concat_strs]; [reflexivity|].
-  unfold barg_vars in H. cbn [flat_map] in H. destruct a as [y|c]; [discriminate|]. cbn [app] in H.
-  rewrite (IH m m') by exact H. reflexivity.
+  intros args v G Hc WG. rewrite <- ebind_unit. rewrite join_unfold. apply flat_map_ext_in. intros a Ha. unfold mjoin.
+  rewrite ebind_merge; [| eapply all_wf_in; eauto | exact I | rewrite Hc; intros x []].
+  rewrite merge_rows_nil_r. cbn [opt_list flat_map]. apply app_nil_r.
 Qed.
 
-(* joining with the one-row answer of { BIND(CONCAT(constants) AS ?v) } = binding ?v in every row, when no row binds ?v *)
-Lemma join_const_bind : forall args v G, barg_vars args = [] -> all_wf G -> (forall b, In b G -> lookup b v = None) ->
-  join G [extend args v []] = map (bind_row args v) G.
+Lemma ebind_bound : forall args v Pv m0 m, bound_in Pv m0 -> In m (ebind args v m0) -> bound_in (Pv ++ [v]) m.
 Proof.
-  intros args v G Hc. rewrite join_unfold. unfold extend. cbn [lookup]. rewrite (concat_const args [] [] Hc). cbn [insert].
-  induction G as [|a G IH]; intros WG HG; cbn [flat_map map]; [reflexivity|].
-  inversion WG as [|? ? Wa WG']; subst.
-  rewrite IH by (auto; intros; apply HG; right; auto). f_equal.
-  unfold mjoin. cbn [flat_map]. rewrite app_nil_r.
-  assert (Hv : lookup a v = None) by (apply HG; left; auto).
-  assert (C : compatible a [(v, concat_strs args [])] = true).
-  { apply compatible_spec; [exact Wa|]. intros x s t Hs Ht. cbn in Ht. destruct (N.eqb_spec v x); [subst; congruence | discriminate]. }
-  unfold merge_rows. rewrite C. rewrite merge_single_insert by auto. cbn [opt_list]. unfold bind_row.
-  pose proof (concat_const args [] a Hc) as Q1. rewrite (concat_const args [] [] Hc) in Q1. inversion Q1 as [Q]. rewrite Q. reflexivity.
+  intros args v Pv m0 m B H x w L. apply in_or_app. apply ebind_spec in H.
+  destruct (econcat args m0) as [c|]; [|subst m; left; eapply B; eauto].
+  destruct (lookup m0 v) as [old|]; [destruct H as [_ ->]; left; eapply B; eauto|].
+  subst m. rewrite lookup_insert in L. destruct (N.eqb_spec v x); [subst; right; left; auto | left; eapply B; eauto].
+Qed.
+
+Lemma bind_agrees_map : forall args v G, bind_agrees args v G = true -> flat_map (ebind args v) G = map (extend args v) G.
+Proof.
+  intros args v. induction G as [|m G IH]; intros H; cbn [flat_map map]; [reflexivity|].
+  unfold bind_agrees in H. cbn [forallb] in H. apply andb_true_iff in H. destruct H as [H1 H2].
+  rewrite IH by exact H2. destruct (ebind args v m) as [|m' [|m'' r]]; try discriminate H1.
+  apply mu_eqb_eq in H1. rewrite H1. reflexivity.
 Qed.
 
 (* ---- conjugation by a single row ---- *)
@@ -586,12 +596,12 @@ Proof.
   apply cond_eval_ext. intros y Hy. rewrite (merge_rows_lookup _ _ _ y M), (H y Hy). reflexivity.
 Qed.
 
-Lemma J_bind : forall m args v A, wf m -> all_wf A -> lookup m v = None ->
+Lemma J_bind : forall m args v A, wf m -> all_wf A ->
   (forall y, In y (barg_vars args) -> lookup m y = None) ->
-  map (bind_row args v) (join [m] A) = join [m] (map (bind_row args v) A).
+  flat_map (ebind args v) (join [m] A) = join [m] (flat_map (ebind args v) A).
 Proof.
-  intros m args v A Wm WA Hv Hargs. apply map_join_r. intros a b [Ha|[]] Hb. subst a.
-  apply bind_row_merge; auto. { eapply all_wf_in; eauto. }
+  intros m args v A Wm WA Hargs. apply flat_map_join_r. intros a b [Ha|[]] Hb. subst a.
+  apply ebind_merge; auto. { eapply all_wf_in; eauto. }
 Qed.
 
 Lemma matches_perm : forall p T T' s, Permutation T T' -> matches p T s ≡ₚ matches p T' s.
@@ -756,25 +766,19 @@ Section Bridge.
           apply join_perm; [exact H | apply He; auto].
         * (* the nested group { BIND(CONCAT(constants) AS ?v) } with ?v not in scope before: flattened into this group *)
           cbn [orb] in Ee. destruct es' as [|e0 [|e1 r']]; try discriminate Ee; [|destruct e0; cbn in Ee; discriminate Ee]. destruct e0 as [| | | | |args v| |]; try discriminate Ee.
-          cbn [lone_bind_ok] in Ee. apply andb_true_iff in Ee. destruct Ee as [Hc Hv].
-          assert (Hc' : barg_vars args = []) by (destruct (barg_vars args); [reflexivity | discriminate]). clear Hc.
-          apply negb_true_iff in Hv.
+          cbn [lone_bind_ok] in Ee.
+          assert (Hc' : barg_vars args = []) by (destruct (barg_vars args); [reflexivity | discriminate]).
           rewrite fragB_PGroup in Fe. cbn [fragB_loop fragB] in Fe. apply andb_true_iff in Fe. destruct Fe as [Fe _].
           apply andb_true_iff in Fe. destruct Fe as [Fe _].
-          assert (Hmv : lookup m v = None) by (eapply gv_free_lookup; eauto; left; auto).
           assert (Hma : forall y, In y (barg_vars args) -> lookup m y = None) by (rewrite Hc'; intros y []).
-          assert (HGv : forall b, In b G -> lookup b v = None).
-          { intros b Hb. destruct (lookup b v) eqn:L; [|reflexivity]. apply (HB b Hb) in L. apply mem_var_in in L. congruence. }
           assert (Ev : eval vw active (PGroup [PBind args v]) = [extend args v []]) by reflexivity.
           change (elem_shape (PGroup [PBind args v])) with [GBindP args v].
           cbn [app lower_loop eval_loop agree_loop] in *. apply andb_true_iff in AG. destruct AG as [_ AG].
-          rewrite Ev in *. rewrite (join_const_bind args v G Hc' WG HGv) in *.
+          rewrite Ev in *. rewrite (join_const_bind args v G Hc' WG) in *.
           apply (IH (pacc ++ [v])); auto.
-          -- apply all_wf_map; auto. intros; apply wf_insert; auto.
-          -- intros b Hb. apply in_map_iff in Hb. destruct Hb as (b0 & E & Hb0). subst b. intros x w L.
-             unfold bind_row in L. rewrite lookup_insert in L. apply in_or_app.
-             destruct (N.eqb_spec v x); [subst; right; left; auto | left; eapply HB; eauto].
-          -- cbn [sem]. rewrite <- !J_bind by (auto; apply sem_wf). apply Permutation_map. exact H.
+          -- apply all_wf_flat_map. intros b Hb. apply Forall_forall. intros b' Hb'. eapply wf_ebind; [|exact Hb']. eapply all_wf_in; eauto.
+          -- intros b Hb. apply in_flat_map in Hb. destruct Hb as (b0 & Hb0 & Hb). eapply ebind_bound; [|exact Hb]. apply HB; auto.
+          -- cbn [sem]. rewrite <- !J_bind by (auto; apply sem_wf). apply flat_map_perm. exact H.
       + rewrite orb_false_r in Ee. cbn [elem_shape app]. rewrite lone_default by (apply negb_true_iff; exact Ee).
         cbn [eval_loop agree_loop] in *. apply andb_true_iff in AG. destruct AG as [AGe AG].
         apply (IH (pacc ++ sposs (PUnion gs))); auto; [apply join_wf; auto | apply Step; intros b Hb; eapply eval_poss; eauto |].
@@ -795,16 +799,13 @@ Section Bridge.
       + (* BIND: extends what precedes it *)
         cbn [elem_shape app shape lower_loop eval_loop agree_loop] in *.
         apply andb_true_iff in AG. destruct AG as [AGb AG].
-        assert (Emap : map (extend args v) G = map (bind_row args v) G).
-        { apply map_ext_in. intros b Hb. unfold bind_agrees in AGb. rewrite forallb_forall in AGb.
-          apply mu_eqb_eq. apply AGb. exact Hb. }
+        assert (Emap : map (extend args v) G = flat_map (ebind args v) G) by (symmetry; apply bind_agrees_map; exact AGb).
         cbn [fragB] in Fe.
-        assert (Hv : lookup m v = None) by (eapply gv_free_lookup; eauto; left; auto).
         assert (Ha : forall y, In y (barg_vars args) -> lookup m y = None) by (intros; eapply gv_free_lookup; eauto; right; auto).
         apply (IH (pacc ++ sposs (PBind args v))); auto.
         * apply all_wf_map; auto. intros; apply wf_extend; auto.
         * intros b Hb. apply in_map_iff in Hb. destruct Hb as (b0 & E & Hb0). subst b. cbn [sposs]. apply extend_bound. auto.
-        * cbn [sem]. rewrite Emap. rewrite <- !J_bind by (auto; apply sem_wf). apply Permutation_map. exact H.
+        * cbn [sem]. rewrite Emap. rewrite <- !J_bind by (auto; apply sem_wf). apply flat_map_perm. exact H.
       + cbn [elem_shape app]. rewrite lone_default by reflexivity.
         cbn [eval_loop agree_loop] in *. apply andb_true_iff in AG. destruct AG as [AGe AG].
         apply (IH (pacc ++ sposs (PValues vs rows))); auto; [apply join_wf; auto | apply Step; intros b Hb; eapply eval_poss; eauto |].
